@@ -91,6 +91,9 @@ class _:
             for name, param, kind, dom in LOSS_SPECS[:10]:
                 for w in ("none", "mask", "fractional"):
                     yield dict(shape=list(shp), loss=name, param=param, kind=kind, dom=list(dom), w=w, R=2, seed=rng.randrange(10**6))
+        for shp in [(3, 2), (2, 3, 2), (2, 2, 2, 2)]:
+            for name, param, kind, dom in LOSS_SPECS[:10]:
+                yield dict(shape=list(shp), loss=name, param=param, kind=kind, dom=list(dom), w="none", R=2, zeros=True, seed=rng.randrange(10**6))
         # higher orders with unequal mode sizes (the multi-mode kernel treats first / middle / last modes differently)
         for shp in [(4, 2, 3, 2), (2, 3, 2, 5), (2, 3, 2, 3, 2)]:
             for name, param, kind, dom in LOSS_SPECS[:3]:
@@ -110,6 +113,11 @@ class _:
             U = [rs.rand(d, R) * 0.8 + 0.4 for d in shp]
         else:
             U = [rs.randn(d, R) * 0.7 for d in shp]
+        if case.get("zeros"):
+            # factor entries that are exactly zero (entries clamped at a lower bound): in different rows of one mode and
+            # different components, so every model value keeps a non-zero term and stays inside the loss's domain
+            U[0][0, 0] = 0.0
+            U[0][1, R - 1] = 0.0
         X = _data(rs, case["kind"], shp)
         W = None
         if case["w"] == "mask":
@@ -236,6 +244,76 @@ class _:
             # weights total the number of entries the sample stands for
             if not (kind != "uniform" and (case["nz"] == 0 or case["z"] == 0)):
                 raise Fail(f"weights-total:{cls}", f"{case}: weights sum {w.sum()} but {rep} entries")
+
+
+@check("c13.sampler_object", ["C13"], ["pyttb.gcp.samplers.GCPSampler", "pyttb.gcp.samplers.stratified", "pyttb.gcp.samplers.uniform",
+                                       "pyttb.gcp.samplers.semistrat"])
+class _:
+    """GCPSampler for every combination of data kind, function sampler and gradient sampler (given explicitly or left
+    to the default), integer and stratified counts: both draws return in-range subscripts with one value and weight
+    each, and the values are the data at those subscripts (semi-stratified: for the draws labelled nonzero)."""
+
+    def cases(self, tier, rng):
+        for kind in ("dense", "sparse"):
+            for fs in (None, "UNIFORM", "STRATIFIED"):
+                for gs in (None, "UNIFORM", "STRATIFIED", "SEMISTRATIFIED"):
+                    for counts in ("int", "strat", "default"):
+                        for seed in range(1 if tier == "quick" else 3):
+                            yield dict(kind=kind, fs=fs, gs=gs, counts=counts, seed=rng.randrange(10**6))
+
+    def classify(self, case):
+        return f"{case['kind']}:f={case['fs']}:g={case['gs']}"
+
+    def run(self, case):
+        ttb = import_pyttb()
+        from pyttb.gcp import samplers
+        rs = np.random.RandomState(case["seed"])
+        np.random.seed(case["seed"])
+        shp = (5, 4, 3)
+        data, X = _problem(ttb, rs, shp, case["kind"])
+        S = samplers.Samplers
+        kw = {}
+        if case["fs"]:
+            kw["function_sampler"] = getattr(S, case["fs"])
+        if case["gs"]:
+            kw["gradient_sampler"] = getattr(S, case["gs"])
+        strat_f = (case["fs"] == "STRATIFIED") or (case["fs"] is None and case["kind"] == "sparse")
+        strat_g = (case["gs"] in ("STRATIFIED", "SEMISTRATIFIED")) or (case["gs"] is None and case["kind"] == "sparse")
+        if case["counts"] == "int":
+            kw.update(function_samples=12, gradient_samples=9)
+        elif case["counts"] == "strat":
+            kw["function_samples"] = samplers.StratifiedCount(7, 5) if strat_f else 12
+            kw["gradient_samples"] = samplers.StratifiedCount(6, 4) if strat_g else 9
+        try:
+            smp = samplers.GCPSampler(data, **kw)
+        except ValueError:
+            return  # combination not offered (stratified sampling of dense data)
+        for which, draw in (("function", smp.function_sample), ("gradient", smp.gradient_sample), ("gradient-again", smp.gradient_sample)):
+            try:
+                subs, vals, wts = draw(data)
+            except ValueError:
+                if case["kind"] == "sparse" and data.nnz == 0:
+                    return
+                raise
+            except AttributeError:
+                if case["kind"] == "dense" and case["gs"] == "SEMISTRATIFIED" and which.startswith("gradient"):
+                    return  # semi-stratified sampling needs stored nonzeros: not available for dense data (fails, no answer)
+                raise
+            subs = np.asarray(subs)
+            v, w = np.asarray(vals, dtype=float).reshape(-1), np.asarray(wts, dtype=float).reshape(-1)
+            n = subs.shape[0]
+            if subs.ndim != 2 or (n and subs.shape[1] != len(shp)) or v.shape != (n,) or w.shape != (n,):
+                raise Fail(f"sample-shape:{which}", f"{case}: subs {subs.shape} vals {v.shape} weights {w.shape}")
+            if n and ((subs < 0).any() or (subs >= np.array(shp)).any()):
+                raise Fail(f"subs-out-of-range:{which}", f"{case}")
+            true = np.array([X[tuple(int(t) for t in s_)] for s_ in subs]) if n else np.zeros(0)
+            semi = which.startswith("gradient") and case["gs"] == "SEMISTRATIFIED"
+            ok = np.array_equal(v[v != 0], true[v != 0]) if semi else np.array_equal(v, true)
+            if not ok:
+                bad = int(np.flatnonzero(v != true)[0])
+                raise Fail(f"values-differ-from-data:{which}", f"{case}: subscript {subs[bad].tolist()} reported as {v[bad]} but the data there is {true[bad]}")
+            if n and (w <= 0).any():
+                raise Fail(f"non-positive-weight:{which}", f"{case}")
 
 
 def _call_strat(samplers, data, case):
